@@ -19,7 +19,7 @@ from vlib import *
 
 LEVEL = "proof"
 THEOREMS = ["C22_expr_roundtrip", "C22_stmt_roundtrip", "C22_emit_translate", "C22_reemit_run", "C22_translate_preserves",
-            "C22_outside_domain"]
+            "C22_outside_domain", "C22_expr_injective", "C22_stmt_injective", "C22_module_injective"]
 
 
 def fields(line):
